@@ -23,7 +23,8 @@ RULE = ("name and base built from 0-3 segments out of {a, b, x.y, .h, .., ., '',
         "path) x owner step; a history stream runs the constructor and then 1-5 reopen(temp=None/True/False, fext, clear, "
         "reuse, clean) / close(clear) calls on one Filer with a sibling Filer's file and unrelated files in the shared "
         "directories, and direct remake(name, base, temp, clean, filed, extensioned, fext) calls whose base/name differ "
-        "from the constructor's (climbing, absolute, empty), snapshotting after every call (the walk starts 6 directories "
+        "from the constructor's (climbing, absolute, empty); 40 % of the histories run inside `with openFiler(...)` and "
+        "leave the block normally or by an exception (the exit is one more observed call), snapshotting after every call (the walk starts 6 directories "
         "above the sandbox root, so escapes show up as ../ paths); thorough enumerates all 16 flag sets x all name/base pairs of <= 2 segments; non-trivial "
         "= a dotted segment ('.', '..' or '...'), or temp with filed, extensioned or clean, or a history of >= 2 calls or "
         "with a clearing temp flip")
@@ -81,7 +82,7 @@ def directed():
         out.append(dict(c, pre=[["head/hio", True]]))
         out.append(dict(c, pre=[["head/hio", True], [expected_rel(c, alt=True), bool(filed)]]))
     out.append(dict(mk("x"), pre=[["head/hio", True], ["alt/.hio", True]]))
-    return out + directed_histories() + directed_remakes()
+    return out + directed_histories() + directed_remakes() + directed_ctx()
 
 
 def rand_path(rng):
@@ -178,6 +179,29 @@ def directed_remakes():
     return out
 
 
+def directed_ctx():
+    R = "reopen"
+    out = []
+    for filed, ext in [(True, False), (False, False), (False, True)]:
+        per = mk("x", "b", filed=filed, ext=ext)
+        tmp = mk("x", "b", temp=True, filed=filed, ext=ext)
+        for rz in (False, True):
+            for cl in (False, True):
+                out += [
+                    dict(with_siblings(per), hops=[], ctx={"clear": cl, "raise": rz}),
+                    dict(with_siblings(tmp), hops=[], ctx={"clear": cl, "raise": rz}),
+                    # seeded C29-4: the temp flag changes inside the block
+                    dict(hist(per, (R, True, None, True, False, False)), ctx={"clear": cl, "raise": rz}),
+                    dict(hist(tmp, (R, False, None, True, False, False)), ctx={"clear": cl, "raise": rz}),
+                    dict(hist(per, (R, True, None, False, False, False), (R, False, None, True, False, False)), ctx={"clear": cl, "raise": rz}),
+                ]
+        out.append(dict(hist(per, ("remake", "y", "c", True, False, filed, ext, "text")), ctx={"clear": False, "raise": False}))
+    # a call that raises inside the block: the block is left by that exception
+    c = mk("x", "b", filed=True)
+    out.append(dict(hist(c, (R, None, "db", True, False, False)), pre=[["head/hio/b/x.db", False]], ctx={"clear": False, "raise": False}))
+    return out
+
+
 def random_history(rng):
     c = mk(rng.choice(["x", "x", "x.y", "a/x", "x", ".h"]), rng.choice(["b", "b", "", "b/c"]),
            rng.random() < 0.4, rng.random() < 0.25, rng.random() < 0.5, rng.random() < 0.35, "text")
@@ -190,7 +214,10 @@ def random_history(rng):
                          rng.random() < 0.6, rng.random() < 0.35, rng.random() < 0.2])
         else:
             hops.append(["close", rng.random() < 0.7])
-    return dict(with_siblings(c), hops=hops)
+    h = dict(with_siblings(c), hops=hops)
+    if rng.random() < 0.4:
+        h["ctx"] = {"clear": rng.random() < 0.3, "raise": rng.random() < 0.3}
+    return h
 
 
 def generate(rng, tier):
@@ -271,18 +298,13 @@ def run_impl(case):
                 os.makedirs(full, exist_ok=True)
         tmap = {}
         obs = {"pre": _snapshot(root, tmap)}
-        try:
-            filer = SandboxFiler(name=case["name"], base=case["base"], temp=case["temp"],
-                                 headDirPath=os.path.join(root, "head"), clean=case["clean"], filed=case["filed"],
-                                 extensioned=case["ext"], fext=case["fext"], reopen=True)
-            obs["mid"] = _snapshot(root, tmap)
-            obs["open"] = ["ok", _relpath(filer.path, root, tmap)]
-        except Exception as ex:
-            obs["open"] = ["exc", exn_kind(ex)]
-            obs["mid"] = _snapshot(root, tmap)
-        if filer is not None and case.get("hops"):
-            obs["hops"] = []
-            for hop in case["hops"]:
+        kw = dict(name=case["name"], base=case["base"], temp=case["temp"], headDirPath=os.path.join(root, "head"),
+                  clean=case["clean"], filed=case["filed"], extensioned=case["ext"], fext=case["fext"], reopen=True)
+
+        def run_hops(filer):
+            """the calls of the history; returns True when a call other than remake() raised"""
+            obs["hops"], obs["hops_run"] = [], []
+            for hop in case.get("hops") or []:
                 try:
                     if hop[0] == "close":
                         filer.close(clear=hop[1])
@@ -298,10 +320,48 @@ def run_impl(case):
                     r = ["ok", None]
                 except Exception as ex:
                     r = ["exc", exn_kind(ex)]
-                snap = _snapshot(root, tmap)
-                obs["hops"].append({"res": r, "path": _relpath(filer.path, root, tmap), "snap": snap})
+                obs["hops_run"].append(hop)
+                obs["hops"].append({"res": r, "path": _relpath(filer.path, root, tmap), "snap": _snapshot(root, tmap)})
                 if r[0] != "ok" and hop[0] != "remake":
-                    break          # the history stops at the first exception (a rejected remake() call changes nothing)
+                    return True    # the history stops at the first exception (a rejected remake() call changes nothing)
+            return False
+
+        ctx = case.get("ctx")
+        if ctx:
+            # with openFiler(...) as filer: <history>; the block is left normally or by an exception
+            from hio.base.filing import openFiler
+
+            class Boom(Exception):
+                pass
+            exit_res = ["ok", None]
+            try:
+                with openFiler(cls=SandboxFiler, clear=ctx["clear"], **kw) as f:
+                    filer = f
+                    obs["mid"] = _snapshot(root, tmap)
+                    obs["open"] = ["ok", _relpath(filer.path, root, tmap)]
+                    if run_hops(filer) or ctx["raise"]:
+                        raise Boom()
+            except Boom:
+                pass
+            except Exception as ex:
+                if filer is None:
+                    obs["open"] = ["exc", exn_kind(ex)]
+                    obs["mid"] = _snapshot(root, tmap)
+                else:
+                    exit_res = ["exc", exn_kind(ex)]
+            if filer is not None:
+                obs["hops_run"].append(["exit", ctx["clear"]])
+                obs["hops"].append({"res": exit_res, "path": _relpath(filer.path, root, tmap), "snap": _snapshot(root, tmap)})
+            return obs
+        try:
+            filer = SandboxFiler(**kw)
+            obs["mid"] = _snapshot(root, tmap)
+            obs["open"] = ["ok", _relpath(filer.path, root, tmap)]
+        except Exception as ex:
+            obs["open"] = ["exc", exn_kind(ex)]
+            obs["mid"] = _snapshot(root, tmap)
+        if filer is not None and case.get("hops"):
+            run_hops(filer)
         elif filer is not None:
             p = filer.path
             if not os.path.lexists(p) and os.path.isdir(os.path.dirname(p)):
@@ -352,7 +412,7 @@ def oracle(case, obs):
     own = T if case["temp"] else (H if _under(H, P, strict=False) or not _under(A, P, strict=False) else A)
     if not _under(own, P):
         return f".path {'/'.join(P) or '(sandbox root)'} is not inside its head directory {'/'.join(own)}"
-    if "hops" in obs:
+    if obs.get("hops"):
         return _oracle_history(case, obs, P)
     if obs["clear"][0] != "ok":
         return None   # close raised because the owner put a directory at an extensioned path: nothing the Filer made there
@@ -383,11 +443,18 @@ def _oracle_history(case, obs, P):
     when that path is a temp one) or, for reopen(clean=True), inside the clean tail; creations only inside a head or
     a temp directory; after a clear the previous path (or its whole mkdtemp directory) is gone"""
     before = set(_paths(obs["mid"]))
-    for n, (hop, o) in enumerate(zip(case["hops"], obs["hops"])):
+    for n, (hop, o) in enumerate(zip(obs["hops_run"], obs["hops"])):
         after = set(_paths(o["snap"]))
         if o["res"][0] != "ok" and hop[0] != "remake":
             return None
         clear = hop[1] if hop[0] == "close" else (hop[3] if hop[0] == "reopen" else False)
+        if hop[0] == "exit":
+            # leaving "with openFiler": a temp resource (by where the Filer's path lies NOW) goes, a persistent one
+            # stays unless clear was asked for
+            clear = bool(_temp_head(P)) or hop[1]
+            if not clear and before != after:
+                return (f"leaving the openFiler block of a persistent Filer without clear changed the tree: deleted "
+                        f"{sorted('/'.join(p) for p in before - after)[:3]}, created {sorted('/'.join(p) for p in after - before)[:3]}")
         clean = (hop[0] == "reopen" and hop[5]) or (hop[0] == "remake" and hop[4])
         what = f"hop {n} {hop[0]}({', '.join(map(str, hop[1:]))})"
         th = _temp_head(P)
@@ -398,7 +465,7 @@ def _oracle_history(case, obs, P):
                 return (f"{what} deleted {'/'.join(p)}, which is not at or below the Filer's own previous path "
                         f"{'/'.join(P or [])}")
         for p in map(list, sorted(after - before)):
-            if hop[0] == "close":
+            if hop[0] in ("close", "exit"):
                 return f"{what} created {'/'.join(p)}"
             if not (_under(H, p) or _under(A, p) or _under(TMP, p)):
                 return f"{what} created {'/'.join(p)} outside every head directory"
@@ -417,6 +484,8 @@ def _oracle_history(case, obs, P):
 
 
 def nontrivial(case, obs):
+    if case.get("ctx"):
+        return True
     if case.get("hops"):
         hs = case["hops"]
         return len(hs) >= 2 or any(h[0] == "reopen" and h[1] is not None and h[3] for h in hs)
@@ -468,11 +537,13 @@ def to_coq(case, obs):
                _path(case["name"].split("/")), _path(case["base"].split("/")), coq_bool(case["temp"]),
                coq_bool(case["clean"]), coq_bool(case["filed"]), coq_bool(case["ext"]), _seg(case["fext"]),
                _path(H), _path(A), _path(T)))
-    ok = obs["open"][0] == "ok" and "hops" not in obs
+    ok = obs["open"][0] == "ok" and not obs.get("hops")
     hops, hobs = [], []
-    for hop, o in zip(case.get("hops") or [], obs.get("hops") or []):
+    for hop, o in zip(obs.get("hops_run") or [], obs.get("hops") or []):
         if hop[0] == "close":
             hops.append(f"(Path.HClose {coq_bool(hop[1])})")
+        elif hop[0] == "exit":
+            hops.append(f"(Path.HExit {coq_bool(hop[1])})")
         elif hop[0] == "remake":
             _, nm, bs, temp, clean, filed, ext, fext = hop
             hops.append("(Path.HRemake %s %s %s %s %s %s %s)" % (
@@ -503,7 +574,8 @@ def distribution(cases, obs):
         d["temp"] += c["temp"]
         d["alt head"] += o["open"][1][:1] == ["alt"]
         d["cleaned"] += bool(set(_paths(o["pre"])) - set(_paths(o["mid"])))
-        if "hops" in o:
+        if o.get("hops"):
+            d["context manager"] = d.get("context manager", 0) + bool(c.get("ctx"))
             d["history"] = d.get("history", 0) + 1
             d["history hops"] = d.get("history hops", 0) + len(o["hops"])
             continue
